@@ -65,6 +65,9 @@ def check_readers(ctx):
             if h.interp_args:
                 compare(ctx, 'ALG-10', '%s: interpolate argument' % tag, where, h.interp_args[-1], ref['apertures_au'], None, vocab=VOCAB, fns=FNS,
                         detail_ok='aperture radius == aperture_arcsec * distance[pc] * au')
+            elif I.lost or getattr(I, '_unknown_conds', 0) or I.flow_taint or any(isinstance(got_, Unk) for _, got_, _, _ in sinks):
+                # (that nothing was interpolated proves something only when all the reader does was followed)
+                ctx.undecided('ALG-10', '%s: interpolate argument' % tag, where, 'no call of interpolate was met, but the reader was not followed to its end')
             else:
                 ctx.violation('ALG-10', '%s: interpolate argument' % tag, where, 'convolved fluxes are never interpolated to the aperture radius', 'no-interpolate')
 
